@@ -687,7 +687,7 @@ def shape_v1_load(spec, ts):
         if f.get('path') is not None:
             key = '(KPath1 %s)' % cl([cs(c) for c in f['path']])
         elif f.get('aliases'):
-            key = '(KAliasN %s)' % cl([cs(a) for a in f['aliases']])
+            key = '(KAliasN %s %s)' % (cs(f['aliases'][0]), cl([cs(a) for a in f['aliases'][1:]]))
         elif f.get('alias') is not None:
             key = '(KAlias1 %s)' % cs(f['alias'])
         else:
